@@ -14,6 +14,7 @@ from ..front import Program, FuncRef
 from ..interp import Interp
 from ..values import *
 from .. import cellmodel as cm
+from .. import bocrun
 from .C06 import builder, call, segs_of, to_slice, rem
 from .C07 import store_prims, nbits, nrefs
 
@@ -205,6 +206,39 @@ def check(run):
         same = snap_slice(it, s) == bs
         run.check(same, 'D1b', 'Slice.copy' if not same else f'Slice.copy<-{mname}', f'after {mname} on a copy the original slice ' + ('is unchanged' if same else 'HAS CHANGED'), wc)
         run.evaluations += 2
+    # an operation that takes a slice / cell as its *argument* reads it: the argument is the same afterwards, and a second use gives the same result
+    readers_of_slice = {
+        'Builder.store_slice(s)': lambda it, s: call(it, builder(it), 'store_slice', s),
+        'Slice.to_builder()': lambda it, s: call(it, s, 'to_builder'),
+        'Slice.to_cell()': lambda it, s: call(it, s, 'to_cell'),
+        'Slice.copy()': lambda it, s: call(it, s, 'copy'),
+    }
+    for name, fn in readers_of_slice.items():
+        it = Interp(prog)
+        c, kids = mk_source(it)
+        s = call(it, c, 'begin_parse')
+        call(it, s, 'load_uint', K(2))
+        if kids:
+            call(it, s, 'load_ref')
+        bs = snap_slice(it, s)
+        try:
+            r1 = fn(it, s)
+            mid = snap_slice(it, s)
+            r2 = fn(it, s)
+            k1, k2 = (repr(bocrun.ckey(it, r)) for r in (r1, r2))
+            same = mid == bs and snap_slice(it, s) == bs and k1 == k2
+            why = f'the argument slice is {"unchanged" if mid == bs else "CHANGED (bits/refs/cursor " + str(mid)[:60] + " vs " + str(bs)[:60] + ")"}; a second call gives {"the same" if k1 == k2 else "a DIFFERENT"} result'
+        except RaiseEx as e:
+            same, why = False, f'raises {e} (second use of the same slice)'
+        run.check(same, 'D1b', name.split('(')[0] + '[argument]' if not same else f'argument kept: {name}', f'{name} twice on a partly read slice with references left: {why}', wc)
+        run.evaluations += 2
+    it = Interp(prog)
+    c, kids = mk_source(it)
+    before = snap(it, c)
+    call(it, builder(it), 'store_cell', c)
+    call(it, builder(it), 'store_ref', c)
+    same = snap(it, c) == before
+    run.check(same, 'D1b', 'Builder.store_cell[argument]' if not same else 'argument kept: store_cell / store_ref', f'the stored cell is {"unchanged" if same else "CHANGED"}', wc)
     # plain bitarray construction: later mutation of the caller's bitarray, and no mutation of it by the cell
     for b_ in (5, 8):
         it = Interp(prog)
